@@ -31,6 +31,21 @@
 //!   class in every row state, an inheriting third class; every (owner, name in any namespace,
 //!   descriptor in any namespace) query; the `*_ref` convenience methods for every owner; X→Y→X with the
 //!   provider renamed by the real `JarSuperProv::remap`.
+//! * **confuse** (`c06/confuse.rs`) — two names for one thing: an alphabet of ~90 fields and methods in which, for every
+//!   coarser key than (name, descriptor), two members coincide (name ++ descriptor with and without one of 13
+//!   separators, name only, parameters without return type, dimensions or class names erased, case, a field
+//!   that reads like a method); every single member × every query, every pair of members in one table (both
+//!   insertion orders) and split over a class and its super type; owners declaring / inheriting / absent from
+//!   the mappings; both directions, and with the namespaces swapped (colliding keys in a source namespace other
+//!   than the first); every query list asked in order and, on a fresh remapper, in reverse order. The same for
+//!   the class table: every ordered pair of 16 class names that coincide under a coarser key.
+//! * **env** (`c06/env.rs`) — the environment: `Vec<JarSuperProv>` providers with the four classes of every
+//!   graph distributed over two and three jars in every way; a provider that answers `Err` for one class
+//!   (every class in turn); `JarSuperProv::remap` on every graph × nine class-row configurations.
+//! * **long** (`c06/long.rs`) — class names of k ≤ 140 ASCII characters and one character of 1/2/3/4 bytes in
+//!   accepting and in refusing descriptors (error paths), as names of the 564 members of one class and in
+//!   member queries; descriptors with 254–1000 parameters (256 class names in one descriptor); names of
+//!   255–65537 bytes.
 //!
 //! # Clauses of the statement → where they are decided
 //!
@@ -47,6 +62,10 @@
 //! | quantifier: partial rows, several namespaces, from ≠ first | generators | desc/table/inherit cell states absent/renamed/same; N = 3 in desc, names, inherit, table; floors `*from-not-first*` |
 //! | quantifier: nested arrays, names containing L, $, unicode, one character | generators | desc atoms; names alphabet (floors on JDK-looking, 3/4-byte, long names, 255 dimensions) |
 //! | quantifier: diamonds, missing intermediate classes, depth | generators | inherit (diamonds, unknown/absent classes), shapes (depth, width, absent fillers) |
+//! | a member is the pair (name, descriptor): two members that coincide under any coarser key are answered apart, a member the mappings do not name keeps its name | `member::judge_member` (the reference compares name and descriptor as a pair) | confuse: all pairs of ~90 confusable members, 4 placements, 2 insertion orders, namespaces swapped; 16² class-name pairs |
+//! | answers do not depend on what the remapper was asked before | every answer of a query list asked in order and in reverse order (fresh remapper) is judged | confuse (all lists), inherit (one remapper serves all graphs of a configuration) |
+//! | the super types are those the provider knows, wherever it keeps them | `World::accepted` on the graph, whatever the distribution over jars; with a failing provider `Err` or an answer right for the graph with or without the failing class; never a panic | env: 941 graphs × (2⁴ + 3⁴) distributions × 10 sets; 941 graphs × 4 failing classes; `JarSuperProv::remap` (`provider-remap:*`) on 941 graphs × 9 row configurations × 1/2 jars |
+//! | quantifier: all descriptors of the grammar — long ones, multi-byte characters at every offset, also where the scanner refuses | `desc::judge_desc_tally` (`Err` or same shape outside the grammar, never a panic) | long: k ≤ 140 × 1/2/3/4-byte character × 6 accepting and 8 refusing forms; ≤ 255 parameter slots and ≤ 65535 bytes demanded, beyond that `Err` or a right answer |
 
 /// dispatch on the number of namespaces
 macro_rules! with_n {
@@ -71,6 +90,12 @@ mod member;
 mod names;
 #[path = "c06/shapes.rs"]
 mod shapes;
+#[path = "c06/confuse.rs"]
+mod confuse;
+#[path = "c06/env.rs"]
+mod env;
+#[path = "c06/long.rs"]
+mod long;
 
 use std::collections::BTreeMap;
 use vcore::{json, Ctx, Stats, Value};
@@ -107,7 +132,12 @@ pub fn parse_replay(body: &str) -> (BTreeMap<String, String>, Vec<String>, mapmo
 			head.insert(k.to_owned(), v.to_owned());
 		}
 	}
-	let text: String = lines.map(|l| format!("{l}\n")).collect();
+	// (the replay file ends with one more line break than the printed set: no empty line may reach the strict reader)
+	let mut rest: Vec<&str> = lines.collect();
+	while rest.last() == Some(&"") {
+		rest.pop();
+	}
+	let text: String = rest.iter().map(|l| format!("{l}\n")).collect();
 	let set = mapmodel::tiny::parse(&text).unwrap_or_else(|e| vcore::machinery_fail(&format!("replay: mapping text: {e:?}")));
 	(head, supers, set)
 }
@@ -125,6 +155,22 @@ fn main() {
 	if let Some(path) = ctx.replay.clone() {
 		replay(ctx, &path);
 	}
+	if let Ok(only) = std::env::var("C06_DEV_ONLY") {
+		// DEV
+		let t = ctx.elapsed_s();
+		let (s, b) = match only.as_str() {
+			"confuse" => confuse::run(ctx),
+			"env" => env::run(ctx),
+			"long" => long::run(ctx),
+			_ => vcore::machinery_fail("C06_DEV_ONLY"),
+		};
+		println!("{only}: {} evaluations, {} distinct, {:.1}s", s.evaluations, s.distinct.len(), ctx.elapsed_s() - t);
+		for (k, v) in &s.outcomes {
+			println!("  {k}: {v}");
+		}
+		println!("{}", serde_json::to_string(&b).unwrap().chars().take(3000).collect::<String>());
+		ctx.finish(json!({"evaluations": s.evaluations, "distinct_nontrivial": s.distinct.len(), "rule": "dev", "samples": s.samples, "exhaustive": false}), &[]);
+	}
 	let t0 = ctx.elapsed_s();
 	let (d, d_bounds) = desc::run(ctx);
 	let t1 = ctx.elapsed_s();
@@ -138,6 +184,12 @@ fn main() {
 	let t5 = ctx.elapsed_s();
 	let (shp, shp_bounds) = shapes::run(ctx);
 	let t6 = ctx.elapsed_s();
+	let (cnf, cnf_bounds) = confuse::run(ctx);
+	let t7 = ctx.elapsed_s();
+	let (envs, env_bounds) = env::run(ctx);
+	let t8 = ctx.elapsed_s();
+	let (lng, lng_bounds) = long::run(ctx);
+	let t9 = ctx.elapsed_s();
 
 	let n_floor = ctx.tier.pick(1_000, 10_000);
 	ctx.floor("descriptors in which at least two class names changed", n_floor, d.get("desc:two-or-more-names-changed"));
@@ -190,12 +242,43 @@ fn main() {
 	ctx.floor("shapes: members found in an interface of a comb", 1_000, shp.get("shapes:comb-found-in-interface"));
 	ctx.floor("shapes: fallbacks", 1_000, shp.get("shapes:fallback"));
 	ctx.floor("shapes: round trips checked (X→Y→X)", 1_000, shp.get("roundtrip:member:identity-required"));
+	ctx.floor("confuse: member answers judged", 100_000, cnf.get("confuse:judged"));
+	ctx.floor("confuse: members found next to a member whose name ++ separator ++ descriptor is the same text", 1_000, cnf.get("confuse:rel:concatenation-coincides"));
+	ctx.floor("confuse: … where one is a field and the other a method", 50, cnf.get("confuse:rel:concatenation-coincides-field-and-method"));
+	ctx.floor("confuse: members told apart that differ in the return type only", 500, cnf.get("confuse:rel:differ-in-return-type-only"));
+	ctx.floor("confuse: members told apart that differ in the array dimensions only", 300, cnf.get("confuse:rel:differ-in-dimensions-only"));
+	ctx.floor("confuse: members told apart that differ in the class names of the descriptor only", 10_000, cnf.get("confuse:rel:differ-in-class-names-only"));
+	ctx.floor("confuse: members told apart that differ in case only", 200, cnf.get("confuse:rel:differ-in-case-only"));
+	ctx.floor("confuse: members the mappings do not name that kept their name", 100_000, cnf.get("confuse:unnamed-member-kept-its-name"));
+	ctx.floor("confuse: answers with the colliding spellings in a source namespace other than the first", 100_000, cnf.get("confuse:colliding-spellings-in-a-source-namespace-other-than-the-first"));
+	ctx.floor("confuse: answers to the query lists asked in reverse order on a fresh remapper", 100_000, cnf.get("confuse:asked-in-reverse-order-on-a-fresh-remapper"));
+	ctx.floor("confuse: members found in the owner / in the super type", 100_000, cnf.get("confuse:found-in-owner").min(cnf.get("confuse:found-in-super")));
+	ctx.floor("confuse: round trips checked (X→Y→X)", 100_000, cnf.get("roundtrip:member:identity-required"));
+	ctx.floor("confuse: class names and descriptors of class-name pairs judged in the namespace where they look alike", 5_000, cnf.get("confuse:class-pair-desc-judged-in-the-colliding-namespace"));
+	ctx.floor("confuse: members of look-alike classes found", 5_000, cnf.get("confuse:class-pair-member-found"));
+	ctx.floor("env: member answers with the classes distributed over several jars", 1_000_000, envs.get("env:jars:judged"));
+	ctx.floor("env: members found through a class that only a later jar knows", 100_000, envs.get("env:jars:found-through-a-class-known-to-a-later-jar-only"));
+	ctx.floor("env: members found through a class that only the last jar knows", 100_000, envs.get("env:jars:found-through-a-class-known-to-the-last-jar-only"));
+	ctx.floor("env: members found with an empty first jar", 50_000, envs.get("env:jars:found-with-an-empty-first-jar"));
+	ctx.floor("env: failures of the provider that came back as Err", 10_000, envs.get("env:failing:error-came-back"));
+	ctx.floor("env: lookups answered although the provider fails for a class", 50_000, envs.get("env:failing:answered"));
+	ctx.floor("env: renamed providers compared (JarSuperProv::remap)", 50_000, envs.get("env:remap:judged"));
+	ctx.floor("env: … with an ordered list of two super types", 10_000, envs.get("env:remap:judged-with-an-ordered-list-of-two"));
+	ctx.floor("long: accepted descriptors with a multi-byte character at every offset", 2_000, lng.get("long:offsets:accepted-judged-multibyte"));
+	ctx.floor("long: refused descriptors with a multi-byte character at every offset", 4_000, lng.get("long:offsets:refusing-judged-multibyte"));
+	ctx.floor("long: refusals with Err", 10_000, lng.get("long:offsets:refused-with-err"));
+	ctx.floor("long: fields of a table of 564 members found", 1_000, lng.get("long:offsets:field-of-a-564-member-table-found"));
+	ctx.floor("long: member queries with a refused descriptor that did not panic", 4_000, lng.get("long:offsets:member-query-with-a-refused-descriptor-did-not-panic"));
+	ctx.floor("long: descriptors with 256 class names judged", 2, lng.get("long:sizes:descriptor-with-256-class-names-judged"));
+	ctx.floor("long: descriptors with 254 or 255 parameters judged", 8, lng.get("long:sizes:descriptor-with-254-or-255-parameters-judged"));
+	ctx.floor("long: names of 65533 bytes judged", 6, lng.get("long:sizes:name-of-65533-bytes-judged"));
+	ctx.floor("long: members with long names and descriptors found", 20, lng.get("long:sizes:member-found"));
 
 	let mut all = Stats::new();
 	let mut samples: Vec<Value> = Vec::new();
 	let mut outcomes: BTreeMap<String, u64> = BTreeMap::new();
 	let mut distinct = 0u64;
-	for s in [&d, &mal, &inh, &tab, &nam, &shp] {
+	for s in [&d, &mal, &inh, &tab, &nam, &shp, &cnf, &envs, &lng] {
 		all.evaluations += s.evaluations;
 		distinct += s.distinct.len();
 		for (k, v) in &s.outcomes {
@@ -206,7 +289,7 @@ fn main() {
 	let coverage = json!({
 		"evaluations": all.evaluations,
 		"distinct_nontrivial": distinct,
-		"rule": "one evaluation = one call of a real ARemapper/BRemapper method on a remapper built by the real Mappings::remapper_a / remapper_b. distinct_nontrivial = distinct rendered descriptor/class-name inputs whose answer differs from the input + distinct (super-type graph, owner, declaring class) triples in which a member was answered through a super type + distinct (table set, query) pairs answered with a changed name + distinct (name-alphabet input) descriptors whose answer differs from the input + distinct (shape, states, owner, declaring class) tuples answered through a class",
+		"rule": "one evaluation = one call of a real ARemapper/BRemapper method on a remapper built by the real Mappings::remapper_a / remapper_b. distinct_nontrivial = distinct rendered descriptor/class-name inputs whose answer differs from the input + distinct (super-type graph, owner, declaring class) triples in which a member was answered through a super type + distinct (table set, query) pairs answered with a changed name + distinct (name-alphabet input) descriptors whose answer differs from the input + distinct (shape, states, owner, declaring class) tuples answered through a class + distinct (confusable set, placement, direction, owner, query) tuples answered by an entry + distinct (graph, jar distribution, set, owner) tuples answered through a super type + distinct long inputs whose answer differs from the input",
 		"exhaustive": true,
 		"samples": samples,
 		"outcomes": outcomes,
@@ -217,9 +300,12 @@ fn main() {
 			"table": tab_bounds,
 			"names": nam_bounds,
 			"shapes": shp_bounds,
+			"confuse": cnf_bounds,
+			"env": env_bounds,
+			"long": lng_bounds,
 		},
-		"engine_evaluations": {"desc": d.evaluations, "malformed": mal.evaluations, "inherit": inh.evaluations, "table": tab.evaluations, "names": nam.evaluations, "shapes": shp.evaluations},
-		"engine_wall_s": {"desc": t1 - t0, "malformed": t2 - t1, "inherit": t3 - t2, "table": t4 - t3, "names": t5 - t4, "shapes": t6 - t5},
+		"engine_evaluations": {"desc": d.evaluations, "malformed": mal.evaluations, "inherit": inh.evaluations, "table": tab.evaluations, "names": nam.evaluations, "shapes": shp.evaluations, "confuse": cnf.evaluations, "env": envs.evaluations, "long": lng.evaluations},
+		"engine_wall_s": {"desc": t1 - t0, "malformed": t2 - t1, "inherit": t3 - t2, "table": t4 - t3, "names": t5 - t4, "shapes": t6 - t5, "confuse": t7 - t6, "env": t8 - t7, "long": t9 - t8},
 	});
 	ctx.finish(coverage, &[
 		"class, field and method names are drawn from explicit alphabets (desc: 7 slots; names: 34 shapes incl. JDK/library packages, descriptor letters, L, $, (, ), <>, 2/3/4-byte characters, 64 and 302 characters; five names with unpaired surrogates); other names are not covered",
@@ -231,6 +317,10 @@ fn main() {
 		"for a found entry the descriptor may be the rewritten query descriptor or the entry's own descriptor carried to the target namespace (they differ only for classes without a source-namespace name)",
 		"X→Y→X identity is demanded exactly where the reference model's own round trip is the identity under every accepted reading",
 		"malformed descriptors: only Err or a shape-preserving Ok is demanded",
+		"a provider that answers Err: Err is accepted; an Ok answer must be right for the graph as it is or for the graph in which the failing class is unknown to the provider",
+		"a class known to several jars of one provider is not explored (the statement does not say which jar wins)",
+		"beyond what a class file can hold (more than 255 parameter slots, names or descriptors of more than 65535 bytes) a refusal is accepted, a wrong answer is not",
+		"JarSuperProv::remap is judged as the means to carry an inheritance graph into the target namespace for the way back (same classes, same super types, same order, new names)",
 	]);
 }
 
@@ -247,6 +337,15 @@ fn replay(ctx: &'static Ctx, path: &std::path::Path) -> ! {
 	} else if engine.starts_with("desc") {
 		obs1 = desc::replay_case(ctx, &head, &set, &mut st);
 		obs2 = desc::replay_case(ctx, &head, &set, &mut Stats::new());
+	} else if engine.starts_with("member-sequence") {
+		obs1 = confuse::replay_case(ctx, &head, &supers, &set, &mut st);
+		obs2 = confuse::replay_case(ctx, &head, &supers, &set, &mut Stats::new());
+	} else if engine == "long-sizes" {
+		obs1 = long::replay_case(ctx, &head, &mut st);
+		obs2 = long::replay_case(ctx, &head, &mut Stats::new());
+	} else if engine == "provider-remap" || engine == "member-failing-provider" {
+		obs1 = env::replay_case(ctx, &head, &supers, &set, &mut st);
+		obs2 = env::replay_case(ctx, &head, &supers, &set, &mut Stats::new());
 	} else {
 		obs1 = member::replay_case(ctx, &head, &supers, &set, &mut st);
 		obs2 = member::replay_case(ctx, &head, &supers, &set, &mut Stats::new());
